@@ -101,3 +101,13 @@ Proof.
   assert (Z: sent_of st c k = 0 /\ out_of st c k = 0) by (unfold sent_of, out_of, get_cs; rewrite E0; split; reflexivity).
   destruct Z as [Z1 Z2]. lia.
 Qed.
+
+(* a migration of a contract whose stored version is 0.13.1 or later (V3, VCur) rewrites no channel balance, nor the
+   allow list, nor the governance address: it can only set the default gas limit *)
+Theorem migrate_current_keeps_books st g ok bal st' :
+  (ver st = V3 \/ ver st = VCur) -> migrate st g ok bal = Ok st' ->
+  chan_state st' = chan_state st /\ allow st' = allow st /\ admin st' = admin st /\ channels st' = channels st /\
+  default_gas st' = match g with Some x => Some x | None => default_gas st end.
+Proof.
+  intros Hv H. unfold migrate in H. destruct Hv as [Hv|Hv]; rewrite Hv in H; inversion H; subst st'; cbn; repeat split; reflexivity.
+Qed.
